@@ -75,6 +75,75 @@ def correspond(res, n):
                                    detail=json.dumps(dict(case=c, impl=o))))
 
 
+BURST_HEADER = '''From Coq Require Import ZArith List Bool.
+From BV Require Import Lib.Cases Model.Restart.
+Import ListNotations. Open Scope Z_scope.
+Definition check_case := Restart.check_burst_case.'''
+
+
+def burst_cases(rng, n):
+    cases = []
+    for slots in (1, 2, 3, 5):
+        for live in range(0 if slots > 1 else 1, slots + 1):
+            for via in ('grow', 'start_failed'):
+                if live == 0 and via == 'grow':
+                    continue
+                for crash in (-1, 1):
+                    for code in (1, -9, 155):
+                        cases.append(dict(slots=slots, live=live, via=via, crash=crash, code=code))
+    rng.shuffle(cases)
+    return cases[:n]
+
+
+def burst_expect(c):
+    """which creations of each burst pass are charged (Pool._repopulate_pool: a reaped worker's
+    status outside clean/recycle, or a missing worker beyond the reaped ones when somebody was reaped)"""
+    slots, L = c['slots'], c['live']
+    passes = []
+    for i in range(10):
+        r = L if c['crash'] < 0 else min(c['crash'], L)
+        abnormal = c['code'] not in (0, 155)
+        need = [abnormal] * r + [r > 0] * (slots - L)
+        passes.append(need)
+        L = slots
+    return passes
+
+
+def burst_check(res):
+    """the start-up burst: the REAL Supervisor.body over fake workers and an exact fake clock, against
+    the proved limiter with budget 10 * slots and a one-second window"""
+    rng = random.Random(res.seed * 31 + 5)
+    cases = burst_cases(rng, 40 if res.tier == 'quick' else 400)
+    outs = core.run_driver('burst_driver.py', cases, timeout=300)
+    terms = []
+    for c, o in zip(cases, outs):
+        if 'crashed' in o:
+            res.alarms.append(dict(signature='C11:burst-run-crashed', what='%s: %s' % (json.dumps(c), o['crashed']), replay=dict(burst=c, impl=o)))
+            continue
+        if o['budget'] != 10 * c['slots'] or o['window'] != 1:
+            res.alarms.append(dict(signature='C11:startup-burst-budget-is-not-ten-per-slot-per-second',
+                                   what='pool of %d slots (%d worker objects when the supervisor woke up, %s): the burst limiter admits %s per %s s'
+                                        % (c['slots'], c['live'], c['via'], o['budget'], o['window']), replay=dict(burst=c, impl=o)))
+        if not o['restored'] and o['raised_at_pass'] is None:
+            res.alarms.append(dict(signature='C11:own-limiter-not-restored-after-burst',
+                                   what='after the burst the pool does not have its own limiter back: %s' % json.dumps(c), replay=dict(burst=c, impl=o)))
+        passes = burst_expect(c)
+        terms.append((c, o, '((%s, 1000, %s, (%s, %s)) : Restart.burst_case)' % (
+            cz(c['slots']), clist(passes, lambda p: clist(p, cbool)),
+            clist(o['forks_per_pass'], lambda k: '%d%%nat' % k),
+            'None' if o['raised_at_pass'] is None else 'Some %d%%nat' % o['raised_at_pass'])))
+    codes, _ = core.coq_eval('C11burst', BURST_HEADER, core.chunks([t for _, _, t in terms], 200))
+    res.add_cov(evaluations=len(terms), traces=len(terms), burst_cases=len(terms),
+                rule='start-up burst: real Supervisor.body over fake workers / exact clock vs Restart.burst (budget 10*slots, window 1 s)')
+    for idx, code in codes:
+        c, o, _ = terms[idx]
+        res.alarms.append(dict(signature='C11:startup-burst-differs-from-limiter-model',
+                               what='pool of %d slots (%d worker objects at wake-up via %s; %s crash per pass with status %s): forks per burst pass %s, RestartFreqExceeded at pass %s; '
+                                    'the limiter with ten restarts per slot per second gives something else'
+                                    % (c['slots'], c['live'], c['via'], 'all' if c['crash'] < 0 else c['crash'], c['code'], o['forks_per_pass'], o['raised_at_pass']),
+                               replay=dict(burst=c, impl=o)))
+
+
 def run(res):
     res.proof_step('Props/C11.v', extra_targets=['Model/Restart.vo', 'Model/Pool.vo'],
                            kernels_needed=['K_restart', 'G_pool_shape', 'G_pool_pins'])
@@ -82,6 +151,7 @@ def run(res):
     if res.broken:
         n = max(n, 5000)      # failing-input search
     correspond(res, n)
+    burst_check(res)
     # pool half: which exits consult the limiter, against the proved pool model
     pc.pool_check(res, 'C11', 100 if res.tier == 'quick' else 4000, focus={'exit': 12, 'tick': 14, 'advance': 10, 'ack': 6, 'apply': 6},
                   cfg=lambda rng: dict(pc.random_cfg(rng), max_restarts=rng.choice([1, 2, 3])))
@@ -101,6 +171,16 @@ def run(res):
 
 def replay(path):
     d = json.load(open(path))
+    if 'burst' in d['replay']:
+        c = d['replay']['burst']
+        out = core.run_driver('burst_driver.py', [c])[0]
+        print('burst case:', json.dumps(c))
+        print('implementation now:', json.dumps(out))
+        bad = out.get('budget') != 10 * c['slots'] or out.get('window') != 1
+        print('burst budget %s per %s s for %d slots' % (out.get('budget'), out.get('window'), c['slots']))
+        return 1 if bad else 0
+    if d['replay'].get('kind') == 'pool-history' or 'case' in d['replay'] and 'events' in d['replay']['case']:
+        return pc.pool_replay(path)
     c = d['replay']['case']
     out = core.run_driver('restart_driver.py', [c])[0]
     print('case:', json.dumps(c))
